@@ -122,3 +122,19 @@ func MergedMenu3(w *World) []Action {
 	}
 	return out
 }
+
+// ExpiryMenu serves models about the end of a v1 proof window: one setup block forming three v1 contracts with the SAME
+// window, afterwards storage proofs (inside the window and in the very block in which it ends, where the supplement
+// lists all three contracts as expiring) and a payment.
+func ExpiryMenu(w *World) []Action {
+	if len(w.Ref.Live(KFC)) == 0 {
+		return []Action{Seq("setup(3 v1 contracts, one window)", V1FormSalted(1, 2, 100, 1), V1FormSalted(1, 2, 10, 2), V1FormSalted(1, 2, 65, 3))}
+	}
+	return []Action{V1Proof(true), Seq("two proofs at window end", V1Proof(true), V1Proof(true)), V1Proof(false), V1ProofFee(), V1Pay(true, 1)}
+}
+
+// V1InBlockMenu: a v1 contract formed and revised (twice) inside one block - the revision's parent exists only among the
+// block's own creations - followed by what can happen to it afterwards.
+func V1InBlockMenu(w *World) []Action {
+	return []Action{V1FormRevise(true), V1FormRevise(false), V1Revise("pay"), V1Proof(false), V1SF(true)}
+}
